@@ -48,7 +48,19 @@ func (dw *DeltaSelector) ObjectsToPack(
 	hashes []plumbing.Hash,
 	packWindow uint,
 ) ([]*ObjectToPack, error) {
-	otp, err := dw.objectsToPack(hashes, packWindow)
+	// An id that is asked for twice is packed once: git index-pack refuses a
+	// pack in which the same object appears twice.
+	seen := make(map[plumbing.Hash]struct{}, len(hashes))
+	unique := make([]plumbing.Hash, 0, len(hashes))
+	for _, h := range hashes {
+		if _, dup := seen[h]; dup {
+			continue
+		}
+		seen[h] = struct{}{}
+		unique = append(unique, h)
+	}
+
+	otp, err := dw.objectsToPack(unique, packWindow)
 	if err != nil {
 		return nil, err
 	}
